@@ -70,9 +70,13 @@ def small_verbatim():
 def gen_verb(rng):
     delim = rng.choice('|+!/=:;.,?@"\'`-#$&~^_')
     body = ''.join(rng.choice([c for c in PRINTABLE if c != delim]) for _ in range(rng.randrange(0, 9)))
+    star = rng.random() < 0.3
+    if star and rng.random() < 0.15:
+        delim = rng.choice('aZq')          # after the star a letter can delimit too
+        body = body.replace(delim, '')
     if delim == '^' and body == '':
         body = 'k'          # \\verb^^ : the two carets are a ^^-notation for the tokenizer's look-ahead (C01), not two delimiters
-    return dict(delim=delim, body=body, star=rng.random() < 0.3)
+    return dict(delim=delim, body=body, star=star)
 
 
 def check_verb(w):
